@@ -171,6 +171,12 @@ Section Concat.
     set (x := length (concat (map enc_frame fs))) in *. set (y := length fs) in *. set (z := length body). clearbody x y z. clear - IH. lia.
   Qed.
 
+  Lemma enc_blocks_length : forall bl, (length bl <= length (enc_blocks bl))%nat.
+  Proof.
+    induction bl as [|x bl IH]; [cbn; lia|]. unfold enc_blocks in *. cbn [map concat length].
+    rewrite app_length. unfold enc_block at 1. rewrite app_length, le_bytes_length. lia.
+  Qed.
+
   (* ---------------------------------------------------------------- legacy frame body *)
   Lemma legacy_loop_run : forall bl fuel mt fl s tail,
     f_rlimit fl = None -> f_wlimit fl = None -> Forall valid_block bl ->
@@ -216,5 +222,115 @@ Section Concat.
       + exists s'. split; [exact E|]. right. exists m, body. split; [reflexivity|]. split; [exact RM|].
         destruct T as [D1 [D2 [D3 [D4 D5]]]]. cbn [map concat snd]. repeat split; try congruence.
         rewrite D2, C2, B2, A2, !app_nil_r, app_assoc. reflexivity.
+  Qed.
+
+  (* ---------------------------------------------------------------- one frame through selectDecoder *)
+  Definition at_frames (s : st) (bs : list byte) : Prop :=
+    (s_magic s = 0 /\ s_in s = bs) \/
+    (exists m body, bs = le_bytes 4 m ++ body /\ LZ4IO_LEGACY_BOUND < m < 4294967296 /\ s_magic s = m /\ s_in s = body).
+
+  Definition is_lz4 (f : frame) : bool := match f with FLz4 _ _ => true | _ => false end.
+  Definition is_legacy (f : frame) : bool := match f with FLegacy _ => true | _ => false end.
+
+  Lemma app_eq_len : forall (A : Type) (a b x y : list A), a ++ x = b ++ y -> length a = length b -> a = b /\ x = y.
+  Proof.
+    induction a as [|h a IH]; intros b x y E L; destruct b as [|h' b]; cbn in *; try lia; [auto|].
+    inversion E; subst. destruct (IH b x y H1 ltac:(lia)) as [-> ->]. auto.
+  Qed.
+
+  (* what dispatch sees, whichever way the magic number arrived *)
+  Lemma select_to_dispatch : forall mt test sk fl s m body,
+    f_rlimit fl = None -> at_frames s (le_bytes 4 m ++ body) -> LZ4IO_LEGACY_BOUND < m < 4294967296 ->
+    exists mn s1, select_decoder fdec bdec mt test false sk fl s = dispatch fdec bdec mt test false sk fl m mn s1 /\
+                  stepto s s1 body [] 0.
+  Proof.
+    intros mt test sk fl s m body NR AF RM. unfold select_decoder.
+    assert (RM' : 0 <= m < 4294967296) by (unfold LZ4IO_LEGACY_BOUND in RM; lia).
+    destruct AF as [[Z0 EI]|[m' [body' [EB [RM2 [EM EI]]]]]].
+    - cbn [set_nb s_magic]. replace (s_magic s =? 0) with true by (symmetry; apply Z.eqb_eq; exact Z0). cbn [negb].
+      destruct (fread_nf fl MAGICNUMBER_SIZE (set_nb (s_nbFrames s + 1) s) NR) as [s1 [E1 [T1 _]]]. rewrite E1. clear E1.
+      change (Z.to_nat MAGICNUMBER_SIZE) with 4%nat in *. cbn [set_nb s_in s_out s_magic s_rerr s_pasteof] in *.
+      destruct T1 as [A1 [A2 [A3 [A4 A5]]]]. cbn [set_nb s_in s_out s_magic s_rerr s_pasteof] in *.
+      rewrite EI in *. rewrite firstn_app_exact by apply le_bytes_length. rewrite skipn_app_exact in A1 by apply le_bytes_length.
+      rewrite len_le_bytes4. change (4 =? 0) with false. change (4 =? MAGICNUMBER_SIZE) with true. cbn [negb].
+      rewrite le_val_le_bytes4 by exact RM'.
+      exists (le_bytes 4 m), s1. split; [reflexivity|]. repeat split; try assumption. congruence.
+    - apply app_eq_len in EB; [|rewrite !le_bytes_length; reflexivity]. destruct EB as [EB1 EB2]. subst body'.
+      assert (EMM : m' = m).
+      { rewrite <- (le_val_le_bytes4 m RM'). rewrite EB1. symmetry. apply le_val_le_bytes4. unfold LZ4IO_LEGACY_BOUND in RM2. lia. }
+      rewrite EMM in *. clear EMM. cbn [set_nb s_magic].
+      replace (s_magic s =? 0) with false by (symmetry; apply Z.eqb_neq; unfold LZ4IO_LEGACY_BOUND in RM; lia). cbn [negb].
+      rewrite EM. eexists [], _. split; [reflexivity|]. cbn. repeat split; try assumption. rewrite app_nil_r. reflexivity.
+  Qed.
+
+  Lemma magic_not_skippable : is_skippable LZ4IO_MAGICNUMBER = false /\ is_skippable LEGACY_MAGICNUMBER = false.
+  Proof. split; reflexivity. Qed.
+
+  Lemma skippable_idx : forall i, 0 <= i < 16 -> is_skippable (LZ4IO_SKIPPABLE0 + i) = true.
+  Proof.
+    intros i H. unfold is_skippable. rewrite skippable_mask_range by (unfold LZ4IO_SKIPPABLE0; lia).
+    unfold MAGIC_SKIP_LO, MAGIC_SKIP_HI, LZ4IO_SKIPPABLE0. apply andb_true_iff. split; apply Z.leb_le; lia.
+  Qed.
+
+  (* one valid frame: the ST path, and the MT path for legacy / skippable frames *)
+  Lemma select_run : forall f rest mt sk fl s,
+    benign fl -> valid_frame f -> (mt = true -> is_lz4 f = false) ->
+    at_frames s (enc_frame f ++ rest) -> starts_with_magic rest -> s_rerr s = false ->
+    exists s', select_decoder fdec bdec mt false false sk fl s = Ret DFrame s' /\
+      at_frames s' rest /\ s_out s' = s_out s ++ content f /\ s_rerr s' = false /\ s_pasteof s' = s_pasteof s.
+  Proof.
+    intros f rest mt sk fl s [NR [NW _]] V MTL AF SM RE.
+    destruct (enc_frame_head f V) as [body [EH RM]].
+    rewrite EH, <- app_assoc in AF.
+    destruct (select_to_dispatch mt false sk fl s _ _ NR AF RM) as [mn [s1 [ES T1]]]. rewrite ES. clear ES.
+    destruct T1 as [A1 [A2 [A3 [A4 A5]]]]. rewrite app_nil_r in A2.
+    unfold dispatch.
+    destruct f as [b c|bl|i p]; cbn [magic_of enc_frame content valid_frame is_lz4] in *.
+    - (* LZ4 frame, ST *)
+      destruct V as [V BO]. destruct mt; [specialize (MTL eq_refl); discriminate|].
+      replace (is_skippable LZ4IO_MAGICNUMBER) with false by reflexivity. rewrite Z.eqb_refl.
+      unfold lz4f_st. rewrite A1. rewrite app_assoc, <- EH.
+      rewrite (frame_decode_ext _ _ _ _ _ _ rest V). cbn [app]. rewrite NR.
+      destruct (fwrite_nf fl c (mkSt rest (s_rpos s1 + (len (body ++ rest) - len rest)) (s_rerr s1) (s_nseek s1) (s_out s1) (s_wpos s1)
+                                    (ERead (len (body ++ rest) - len rest) (len (body ++ rest) - len rest) false :: s_tr s1)
+                                    (s_magic s1) (s_nbFrames s1) (s_pasteof s1)) NW) as [s2 [E2 [T2 _]]].
+      rewrite E2. clear E2. cbn [lift]. exists s2. split; [reflexivity|].
+      destruct T2 as [B1 [B2 [B3 [B4 B5]]]]. cbn [s_in s_out s_magic s_rerr s_pasteof] in *.
+      split; [left; split; congruence|]. repeat split; congruence.
+    - (* legacy frame *)
+      replace (is_skippable LEGACY_MAGICNUMBER) with false by reflexivity.
+      change (LEGACY_MAGICNUMBER =? LZ4IO_MAGICNUMBER) with false. rewrite Z.eqb_refl.
+      assert (EB : body = enc_blocks bl).
+      { apply app_eq_len in EH; [destruct EH as [_ EH]; symmetry; exact EH|rewrite !le_bytes_length; reflexivity]. }
+      subst body. unfold legacy.
+      destruct (legacy_loop_run bl (S (length (s_in s1))) mt fl s1 rest NR NW V A1 SM) as [s' [E P]].
+      { rewrite A1, app_length. assert (H := enc_blocks_length bl). lia. }
+      rewrite E. clear E.
+      destruct P as [[-> T]|[m [bd' [-> [RM2 T]]]]]; destruct T as [B1 [B2 [B3 [B4 B5]]]];
+        (replace (s_rerr s') with false by congruence); cbn [lift]; exists s'; (split; [reflexivity|]).
+      + split; [left; split; congruence|]. repeat split; congruence.
+      + split; [right; exists m, bd'; repeat split; try tauto; congruence|]. repeat split; congruence.
+    - (* skippable frame *)
+      destruct V as [VI VP]. rewrite (skippable_idx i VI).
+      change (LZ4IO_SKIPPABLE0 =? LZ4IO_MAGICNUMBER) with false.
+      change (LZ4IO_SKIPPABLE0 =? LEGACY_MAGICNUMBER) with false. rewrite Z.eqb_refl.
+      assert (EB : body = le_bytes 4 (len p) ++ p).
+      { apply app_eq_len in EH; [destruct EH as [_ EH]; symmetry; exact EH|rewrite !le_bytes_length; reflexivity]. }
+      subst body. rewrite <- app_assoc in A1.
+      destruct (fread_nf fl 4 s1 NR) as [s2 [E2 [T2 _]]]. rewrite E2. clear E2.
+      change (Z.to_nat 4) with 4%nat in *. rewrite A1 in *.
+      rewrite firstn_app_exact by apply le_bytes_length. rewrite skipn_app_exact in T2 by apply le_bytes_length.
+      rewrite len_le_bytes4. change (4 =? 4) with true. cbn [negb].
+      assert (RP : 0 <= len p < 4294967296) by (unfold len in *; lia).
+      rewrite le_val_le_bytes4 by exact RP.
+      destruct T2 as [B1 [B2 [B3 [B4 B5]]]].
+      destruct (fseek_run 6 sk fl (len p) s2 NR) as [s3 [E3 T3]].
+      { rewrite B1, len_app. assert (H := len_nonneg _ rest). lia. }
+      { unfold IO_FSEEK_STEPMAX. cbn. lia. }
+      { lia. }
+      rewrite E3. clear E3. cbn [Z.eqb]. exists s3. split; [reflexivity|].
+      destruct T3 as [C1 [C2 [C3 [C4 C5]]]]. rewrite B1, to_nat_len, skipn_app_exact in C1 by reflexivity.
+      rewrite !app_nil_r in *.
+      split; [left; split; congruence|]. repeat split; congruence.
   Qed.
 End Concat.
